@@ -302,22 +302,73 @@ func c09Header(w *World, r *Report) {
 	// user id: EncodeUserId pads to 2 and reduces mod 1296; decoder parses base 36
 	eu := w.SSAFunc(w.Func("internal/streams/dns/commands", "EncodeUserId"))
 	var mod, pad, base int64 = -1, -1, -1
+	// the function that formats the user id is the one the header encoder really uses: EncodeUserId if it is in
+	// its cone, the header encoder itself if the digits are produced inline
+	if eu != nil {
+		inCone := false
+		for _, g := range staticCone(encH, 2) {
+			if g == eu {
+				inCone = true
+			}
+		}
+		if !inCone {
+			eu = encH
+		}
+	}
+	var valueThreshold int64 = -1
+	valueThresholdAt := ""
 	if eu != nil {
 		allInstrs(eu, func(in ssa.Instruction) {
 			if b, ok := in.(*ssa.BinOp); ok {
 				if b.Op == token.REM {
 					mod, _ = constIntVal(b.Y)
 				}
-				if b.Op == token.LSS {
+				if b.Op == token.LSS || b.Op == token.LEQ {
 					if v, ok := constIntVal(b.Y); ok {
-						pad = v
+						x := b.X
+						for {
+							if cv, ok := x.(*ssa.Convert); ok {
+								x = cv.X
+								continue
+							}
+							break
+						}
+						isLen := false
+						if lc, ok := x.(*ssa.Call); ok {
+							if bi, ok := lc.Call.Value.(*ssa.Builtin); ok && bi.Name() == "len" {
+								isLen = true
+							}
+						}
+						if isLen || eu != encH {
+							if b.Op == token.LSS {
+								pad = v
+							}
+						} else if rb, ok := x.(*ssa.BinOp); ok && rb.Op == token.REM {
+							// `if id < B { emit '0' }`: pads to two digits exactly when the threshold is the base
+							valueThreshold, valueThresholdAt = v, w.Pos(b.Pos())
+							if b.Op == token.LEQ {
+								valueThreshold = v + 1
+							}
+						}
 					}
 				}
 			}
-			if c, ok := in.(*ssa.Call); ok && isPkgFunc(sCallee(c), "strconv", "FormatInt") {
-				base, _ = constIntVal(c.Call.Args[1])
+			if c, ok := in.(*ssa.Call); ok {
+				if isPkgFunc(sCallee(c), "strconv", "FormatInt") || isPkgFunc(sCallee(c), "strconv", "FormatUint") {
+					base, _ = constIntVal(c.Call.Args[1])
+				}
+				if isPkgFunc(sCallee(c), "strconv", "AppendInt") || isPkgFunc(sCallee(c), "strconv", "AppendUint") {
+					base, _ = constIntVal(c.Call.Args[2])
+				}
 			}
 		})
+	}
+	thresholdProblem := ""
+	if valueThreshold >= 0 && pad < 0 {
+		pad = 2
+		if valueThreshold != base {
+			thresholdProblem = fmt.Sprintf("%s: the user id gets its leading '0' when it is below %d, but it has a single base-%d digit exactly when it is below %d: the ids in between are emitted one character too long or too short, the server strips two characters and reads another user's id (and a shifted payload)", valueThresholdAt, valueThreshold, base, base)
+		}
 	}
 	if eu != nil && base < 0 {
 		// digits looked up in a table: `string([]byte{digits[id/K], digits[id%K]})` — the base is K (and the table
@@ -397,6 +448,9 @@ func c09Header(w *World, r *Report) {
 	}
 	if widthProblem != "" {
 		problems = append(problems, widthProblem)
+	}
+	if thresholdProblem != "" {
+		problems = append(problems, thresholdProblem)
 	}
 	if 1+randLen != strips[0] {
 		problems = append(problems, fmt.Sprintf("the encoder emits 1+%d header bytes but the decoder strips %d", randLen, strips[0]))
@@ -721,6 +775,8 @@ func checkC10(w *World, r *Report) {
 	c10NoPartialAnswerOnError(w, r)
 	r.Rule("R10.14", "no downstream codec cuts a response short: ascii85.Decode has worst-case room or its consumed count is checked", 1)
 	ruleAscii85Room(w, r, "R10.14")
+	r.Rule("R10.17", "the label dots of host-name answers are removed by content (bytes tested to be '.'), never by position", 1)
+	c10DotRemovalIsByContent(w, r)
 	r.Rule("R10.16", "a response decoder that reports success has stored something into the answer (a refusal never arrives as a blank, granted answer)", 5)
 	c10DecodedResponseIsNeverBlank(w, r)
 	r.Rule("R10.15", "a record buffer of constant size is written completely on every path: records are never padded (the client has no length field to tell padding from payload)", 3)
